@@ -8,8 +8,8 @@
 //   for rt=<br|2d|3d|nd> vt=<i32|i64|u64|u8|ptr> part=<simple|auto|static|affinity> dims=<begin>:<size>:<grain>[,...] work=<k>
 //         parallel_for over blocked_range<vt> / blocked_range2d / blocked_range3d / blocked_nd_range<vt,#dims>,
 //         dimension d = [begin, begin+size) with grainsize grain; the Range is wrapped so that every split is seen
-//   step vt=<i32|i64|u64|u8> part=<simple|auto|static|affinity|default> first=<f> last=<l> step=<s> work=<k>
-//         parallel_for(first, last, step, f [, partitioner])
+//   step vt=<i32|i64|u64|u8> part=<simple|auto|static|affinity|default> first=<f> last=<l> step=<s> work=<k> ctx=<0|1>
+//         parallel_for(first, last, step, f [, partitioner] [, task_group_context])
 //   each it=<in|fw|ra> n=<n> kids=<c0,c1,...|-> add=<copy|move> work=<k>
 //         parallel_for_each over n items (ids 0..n-1) through an input / forward / random-access iterator; item i
 //         feeds kids[i] new items (ids allocated in id order after the initial ones)
@@ -129,7 +129,7 @@ static std::string gen_step(Src& s) {
         else { long long mn = vt == "i32" ? (long long)INT_MIN : LLONG_MIN; long long first = mn + s.range(0, 3); long long last = first + (long long)((count - 1) * step) + 1 + s.range(0, (int)step - 1); f = std::to_string(first); l = std::to_string(last); }
         st = u64s(step);
     }
-    return "step vt=" + vt + " part=" + PARTS[part] + " first=" + f + " last=" + l + " step=" + st + " work=" + std::to_string(s.range(0, 4));
+    return "step vt=" + vt + " part=" + PARTS[part] + " first=" + f + " last=" + l + " step=" + st + " work=" + std::to_string(s.range(0, 4)) + " ctx=" + std::to_string((int)s.choose(2));
 }
 static std::string gen_each(Src& s) {
     static const char* IT[] = { "ra", "fw", "in" };
@@ -337,7 +337,15 @@ template <class I> static void run_step(const std::string& l, int part) {
     if (count > 100000) vs_inconclusive("BAD-CASE", "too many iterations");
     SP = Space(); SP.caller = vs_self(); SP.cnt.assign((size_t)count, 0); SP.part = -1; g_step_other = false;
     StepFn<I> fn{ first, step, count };
-    if (part == 0) tbb::parallel_for(first, last, step, fn, tbb::simple_partitioner());
+    if (kvl(l, "ctx", 0)) {     // the overloads taking a user-supplied task_group_context (separate index arithmetic in parallel_for.h)
+        tbb::task_group_context ctx; g_flags.insert("strided_with_context");
+        if (part == 0) tbb::parallel_for(first, last, step, fn, tbb::simple_partitioner(), ctx);
+        else if (part == 1) tbb::parallel_for(first, last, step, fn, tbb::auto_partitioner(), ctx);
+        else if (part == 2) tbb::parallel_for(first, last, step, fn, tbb::static_partitioner(), ctx);
+        else if (part == 3) { tbb::affinity_partitioner ap; tbb::parallel_for(first, last, step, fn, ap, ctx); }
+        else tbb::parallel_for(first, last, step, fn, ctx);
+    }
+    else if (part == 0) tbb::parallel_for(first, last, step, fn, tbb::simple_partitioner());
     else if (part == 1) tbb::parallel_for(first, last, step, fn, tbb::auto_partitioner());
     else if (part == 2) tbb::parallel_for(first, last, step, fn, tbb::static_partitioner());
     else if (part == 3) { tbb::affinity_partitioner ap; tbb::parallel_for(first, last, step, fn, ap); }
